@@ -194,6 +194,13 @@ class F:
         return id(self)
 
     def __str__(self):
+        # pysmt's FNode.__str__ is serialize(threshold=5): nodes deeper than five
+        # connectives below the root are printed as "..."
+        return self._s(5)
+
+    def _s(self, d):
+        if d <= 0:
+            return "..."
         k = self.kind
         if k in ("sym", "leaf"):
             return self.name
@@ -202,14 +209,14 @@ class F:
         if k == "false":
             return "False"
         if k == "not":
-            return "(! %s)" % self.args[0]
+            return "(! %s)" % self.args[0]._s(d - 1)
         op = {"and": " & ", "or": " | ", "implies": " -> ", "iff": " <-> "}[k]
-        return "(" + op.join(str(a) for a in self.args) + ")"
+        return "(" + op.join(a._s(d - 1) for a in self.args) + ")"
 
     __repr__ = __str__
 
-    def serialize(self):
-        return str(self)
+    def serialize(self, threshold=None):
+        return self._s(threshold if threshold is not None else 10 ** 6)
 
     # skeleton for the real tseitin tactic
     def skeleton(self):
